@@ -247,11 +247,18 @@ func (c c04) Case(w *core.WCtx, payload json.RawMessage) core.Result {
 				viol(cfg, "", "mmap open: %v", err)
 				return
 			}
+			var keptAt [][]byte
 			for i := range m.Recs {
 				r.Evals++
 				got, err := mm.ReadNextAt(m.Offs[i])
 				if err != nil || !recEq(got, m.Recs[i]) {
 					viol(cfg, "", "ReadNextAt(%d) = %s,%v want %s", m.Offs[i], recStr(got), err, recStr(m.Recs[i]))
+				}
+				keptAt = append(keptAt, got)
+			}
+			for i, g := range keptAt {
+				if !recEq(g, m.Recs[i]) && len(r.Viol) == 0 {
+					viol(cfg, "", "the record returned by ReadNextAt(%d) changed after later calls: now %s, written %s", m.Offs[i], recStr(g), recStr(m.Recs[i]))
 				}
 			}
 			r.Evals++
